@@ -6,6 +6,7 @@ from vt.arr import Arr, input_arr
 from vt.values import Obj, SList, PyRaise
 from vt import npmodel as N
 from vt.smt import Facts
+from vt import contract as K
 from contracts import gmm as G
 
 Rr = T.sym("R", "int")
@@ -166,7 +167,11 @@ def spec_m_step(ctx, machine, stats):
     At = Arr((Cn, Rn, Rn), lambda c, i, j: P(nsw.fn(c, j, i)))
     Ainv = N.minv(At)
     anyc = T.cmp_cond("!=", Sum(Cn, lambda c: T.mk_ind(nonzero_cond(nsw, c)), "c"), ZERO)
-    if ctx.holds(anyc):
+    try:
+        some = ctx.holds(anyc)
+    except K.SpecUndetermined:
+        some = True          # the code does not branch on "some component has data": the elementwise form covers both cases
+    if some:
         X = Arr((Cn, Rn, Dn), lambda c, t, d: T.mk_ite(nonzero_cond(nsw, c), Sum(Rn, lambda k: P(Ainv.fn(c, t, k)) * P(fsw.fn(c, d, k)), "k"), ZERO))
     else:
         X = A.const_arr((Cn, Rn, Dn), 0)
